@@ -1,6 +1,7 @@
 (** C06 — checkpoint/restore at any time boundary is invisible.  Property theorems only. *)
 From Akita Require Import Lib.Base Lib.AbsSim Lib.AbsSimProofs C06.Model C06.Exec C06.Proofs C06.HeapBridge C06.EngineBridge.
-From Akita Require Lib.Engine.
+From Akita Require Lib.Engine Lib.EngineProofs.
+From Coq Require Import Permutation Sorting.Sorted.
 Local Open Scope N_scope.
 
 (** Restoring a queue snapshot (events in pop order) into a fresh queue re-assigns
@@ -156,6 +157,18 @@ Theorem c06_heap_engine_checkpoint_invisible :
                  he_obs W Ev ev_time rw = he_obs W Ev ev_time ra).
 Proof. exact engine_checkpoint_invisible. Qed.
 Print Assumptions c06_heap_engine_checkpoint_invisible.
+
+(** unsafeEventQueue.snapshot sorts a copy of the heap slice with eventHeap.less: any
+    strictly sorted permutation of the heap content is the pop order that [he_save] records
+    (there is exactly one), whatever sorting algorithm sort.Slice uses. *)
+Theorem c06_sorted_snapshot_is_pop_order :
+  forall (Ev : Type) (ev_time : Ev -> N) hq aq (l : list (@Engine.qev Ev)),
+  QRel Ev ev_time hq aq ->
+  Permutation (Engine.q_heap hq) l ->
+  Sorted.StronglySorted (EngineProofs.slt (Engine.qless ev_time)) l ->
+  map fst l = q_drain Ev ev_time (Engine.q_len hq) hq.
+Proof. exact sorted_snapshot_is_pop_order. Qed.
+Print Assumptions c06_sorted_snapshot_is_pop_order.
 
 (** ... and every engine obtained from NewSerialEngine by Schedule calls is in the
     domain of the three theorems above. *)
